@@ -117,6 +117,9 @@ type pubNodeBase struct {
 
 	// msgChan is an internal channel where messages from msgFetcher are collected
 	msgChan chan *Message
+	// stopped is closed by cleanup, i.e. once the node stopped consuming
+	// msgChan for good. It releases callers blocked in InjectControlMessage.
+	stopped chan struct{}
 }
 
 // Trigger sets up 2 goroutines, one that listens to the external error channel
@@ -145,6 +148,7 @@ func (n *pubNodeBase) Trigger(
 
 	n.running = true
 	n.msgChan = make(chan *Message)
+	n.stopped = make(chan struct{})
 	internalErrChan := make(chan error)
 
 	if externalErrChan != nil {
@@ -206,15 +210,24 @@ func (n *pubNodeBase) Trigger(
 // to implement.
 func (n *pubNodeBase) InjectControlMessage(ctx context.Context, msgType ControlMessageType, r opencdc.Record) error {
 	n.lock.Lock()
-	defer n.lock.Unlock()
 	if !n.running {
+		n.lock.Unlock()
 		return cerrors.New("tried to inject control message but PubNode is not running")
 	}
+	msgChan, stopped := n.msgChan, n.stopped
+	// Do not hold the lock while waiting for the node to take the message: a
+	// node that is on its way out (its run loop already returned, e.g. because
+	// the pipeline failed) no longer reads msgChan and needs this very lock in
+	// cleanup. Holding it here blocked both sides forever: the stop request
+	// never returned and the pipeline never finished stopping.
+	n.lock.Unlock()
 
 	select {
 	case <-ctx.Done():
 		return ctx.Err()
-	case n.msgChan <- &Message{controlMessageType: msgType, Record: r}:
+	case <-stopped:
+		return cerrors.New("tried to inject control message but PubNode is not running")
+	case msgChan <- &Message{controlMessageType: msgType, Record: r}:
 		return nil
 	}
 }
@@ -227,6 +240,10 @@ func (n *pubNodeBase) cleanup(ctx context.Context, logger log.CtxLogger) {
 	close(n.out)
 	n.out = nil
 	n.running = false
+	if n.stopped != nil {
+		close(n.stopped)
+		n.stopped = nil
+	}
 	logger.Trace(ctx).Msg("PubNode cleaned up")
 }
 
